@@ -31,7 +31,8 @@ def prop_of(d):
     mp = os.path.join(VERIF, "seeded", d, "meta.json")
     if os.path.exists(mp):
         try:
-            return json.load(open(mp)).get("breaks_property")
+            m = json.load(open(mp))
+            return m.get("regression_check") or m.get("breaks_property")  # regression_check: the check that owns the observable
         except Exception:
             pass
     return d.split("-")[0][:3]
